@@ -29,6 +29,16 @@ def handleMerge (j : Json) : R Json := do
     let res ← jlist (jlist jresultRow) (← jget j "results")
     pure (ofMergeResult (C15.merge res ev))
 
+/-- `{"op":"merge_text","evidence_text":[text…],"results_raw":[[[field…]…]…]}` → `{"text": text}` or `{"err": enum}`:
+    the evidence files as the decoded TEXT of the files, the answer is the text of the output file
+    (`C15.mergeTextRaw`: csv reader → merge → csv writer). -/
+def handleMergeText (j : Json) : R Json := do
+  let texts ← jlist jstr (← jget j "evidence_text")
+  let raw ← jlist (jlist jstrs) (← jget j "results_raw")
+  match C15.mergeTextRaw raw (texts.map String.toList) with
+  | .ok t => pure (obj [("text", .str (String.ofList t))])
+  | .error e => pure (ofErr e)
+
 /-- `{"op":"psmid","psmid":s,"peptide":s}` → `{"raw":…, "scan":n, "modseq":…}` or `{"err": enum}` -/
 def handlePsmId (j : Json) : R Json := do
   let r : C15.ResultRow := { psmId := ← jstr (← jget j "psmid"), peptide := ← jstr (← jget j "peptide"), score := "", pep := "" }
@@ -37,5 +47,5 @@ def handlePsmId (j : Json) : R Json := do
   | .error e => pure (ofErr e)
 
 /-- protocol handlers of property C15: (op name, handler) -/
-def handlersC15 : List (String × (Json → R Json)) := [("merge", handleMerge), ("psmid", handlePsmId)]
+def handlersC15 : List (String × (Json → R Json)) := [("merge", handleMerge), ("merge_text", handleMergeText), ("psmid", handlePsmId)]
 end PgFdr.Driver
